@@ -181,7 +181,9 @@ func burstScenario(t *testing.T, vl *violationLog, id int, k int, pool int, same
 		s.seg.Inject(rsocks.KindIP, udpip(0, 0xffffffff, 68, 67, 17, 64, cl.msg(1, 0, 0, extra...).bytes()))
 	}
 	// each search holds the database lock for its 600 ms probe: k searches take k x 0.6 s (+ 50 ms delays)
-	deadline := time.Now().Add(time.Duration(k)*700*time.Millisecond + 1500*time.Millisecond)
+	// (real time: the limits are generous because the machine may be busy - the loop ends as soon as everybody is served)
+	t0 := time.Now()
+	deadline := time.Now().Add(time.Duration(k)*1500*time.Millisecond + 8*time.Second)
 	offers := map[uint32]uint32{} // xid -> yiaddr
 	for time.Now().Before(deadline) {
 		offers = map[uint32]uint32{}
@@ -213,6 +215,10 @@ func burstScenario(t *testing.T, vl *violationLog, id int, k int, pool int, same
 			vl.add("burst-range", "%s: offered %s outside the dynamic range", desc, ipStr(y))
 		}
 	}
+	if time.Since(t0) > 11*time.Second {
+		// the offers are held for 15 s only: on a machine this slow the second half would judge the scheduler, not the server
+		return desc + " (requests skipped: offers took too long)"
+	}
 	// all offered clients REQUEST at once
 	before := len(s.seg.Frames())
 	nreq := 0
@@ -222,7 +228,7 @@ func burstScenario(t *testing.T, vl *violationLog, id int, k int, pool int, same
 			s.seg.Inject(rsocks.KindIP, udpip(0, 0xffffffff, 68, 67, 17, 64, cl.msg(3, 0, 0, wopt{50, u32b(y)}, wopt{54, u32b(cfg.selfIP)}).bytes()))
 		}
 	}
-	deadline = time.Now().Add(2500 * time.Millisecond)
+	deadline = time.Now().Add(10 * time.Second)
 	acks := map[uint32]uint32{}
 	naks := 0
 	for time.Now().Before(deadline) {
